@@ -237,6 +237,13 @@ def decisionSites : List PV.Generated.ChanLock.Site :=
 theorem decision_sites_locked : ∀ s ∈ decisionSites, s.effLocked = true := by
   decide
 
+/-- **A channel is released under its own (local) id**: every `transport._unlink_channel(…)` call in class Channel
+    passes `self.chanid` (AST of channel.py on this run) — the transport's map is keyed by the local id, so this is
+    what makes "released" in `peer_close_answered_and_released` mean "this channel, and only it". -/
+theorem unlink_uses_the_local_id :
+    PV.Generated.ChanLock.unlinkArgs ≠ [] ∧ ∀ a ∈ PV.Generated.ChanLock.unlinkArgs, a = "self.chanid" := by
+  decide
+
 /-- hence, for any number of threads running any of those sites concurrently: at most one EOF (CLOSE) -/
 theorem eof_decided_once_at_statement_level (calls : List PV.Generated.ChanLock.Site)
     (h : ∀ c ∈ calls, c ∈ decisionSites) (sched : List Nat) :
